@@ -37,6 +37,17 @@ theorem wire_struct_keys (E : Ext) (env : Env) (fl : Flags) (cls c : String) (sl
   rw [List.find?_isSome]
   exact ⟨f, hf, by simp⟩
 
+/-- The members of a struct, completely: for each public field of the class, in declaration order, that is set
+to a value other than None, the pair of the field's name and the representation of that value at the field's
+type ("recursively"). Field names of a class are unique in a well-formed environment. -/
+theorem wire_struct_members (E : Ext) (env : Env) (hwf : envWF env = true) (fl : Flags) (cls c : String)
+    (slots : List (String × PyVal)) :
+    wire E env (.struct fl cls) (.struct c slots) =
+      .obj ((publicFields env cls).filterMap fun f =>
+        (firstSet f.name slots).map fun x => (f.name, wire E env f.ty x)) := by
+  simp only [wire]
+  rw [pick_wireSlots E env _ (publicFields_names_inj hwf cls)]
+
 /-- The four union forms of json_serializer.rst, for a tag `td` the caller can see:
 void member → tag only; unset (None) member → tag only; ordinary-struct member → `.tag` first, then the
 struct's own members (flattened); anything else → `.tag` and the payload nested under the tag name. -/
